@@ -111,6 +111,7 @@ type gen struct {
 	tupleAddrs map[ssa.Value]map[int]*AddrInfo
 	rangeOver map[*ssa.Range]*Val
 	str2bytes map[int]*Term
+	bytes2str map[int]*Val // string(b) conversions: result term -> the slice converted
 	specErrors []string
 	baseFacts []*Term
 	factCapture *[]*Term
